@@ -14,7 +14,7 @@ def entries : List String := ["on_did_open", "on_did_change", "on_did_close", "o
 /-- the extracted methods obey the discipline: the document-store guard is released before the
 database write is requested, every guard is released, no nested acquisition -/
 theorem glas_disciplined :
-    entries.all (fun m => disciplined (inline serverMethods 4 [.call m]) false) = true := by decide
+    entries.all (fun m => disciplined (inline serverMethods 6 [.call m]) false) = true := by decide
 
 /-- the extracted handlers obey theirs: no second read guard while one is held -/
 theorem glas_handlers_disciplined :
@@ -64,5 +64,27 @@ theorem undisciplined_handler_deadlocks :
         [.task 0, .main 0] = some s ∧ finished s = false ∧ ∀ a, isProgress a = true → lstep s a = none := by
   refine ⟨_, rfl, by decide, ?_⟩
   exact stuck_of_single _ _ rfl (by decide) (by decide)
+
+/-- the handlers of edits write the document store only after in-flight requests were cancelled
+and waited for (`request_cancellation` before the first write guard) -/
+theorem glas_store_quiet :
+    ["on_did_open", "on_did_change"].all (fun m => storeQuiet (inline serverMethods 6 [.call m]) false false) = true := by decide
+
+/-- **no answer mixes versions**: under that discipline, whenever the loop thread holds the write
+guard of the document store no request task is alive - so every task sees, from its first to its
+last step, the store of the moment its snapshot was taken -/
+theorem store_stable (ops : List Op) (handlers : List (List TOp)) (tasks : List Task)
+    (h : storeQuiet ops (!tasks.any taskAlive) false = true)
+    (acts : List LAct) (s : LockSys)
+    (hr : lrun (initLock ops handlers tasks) acts = some s) :
+    s.mainHoldsVfs = true → s.tasks.any taskAlive = false :=
+  (lrun_sq acts _ s hr (initLock_sq ops handlers tasks h)).2
+
+/-- the discipline is needed: without the cancellation a task spawned earlier is alive while the
+store is written -/
+theorem store_unstable_without_cancel :
+    ∃ s, lrun (initLock [.snap, .spawn, .acqVfsW, .relVfs, .dbWrite] [[.acqR, .relR, .query 1]] []) [.main 0, .main 0, .main 0] = some s ∧
+      s.mainHoldsVfs = true ∧ s.tasks.any taskAlive = true :=
+  ⟨_, rfl, by decide, by decide⟩
 
 end Glas.Props.C16
